@@ -320,8 +320,7 @@ def r06_2(ctx):
                 for sbb, si in subs:
                     cut |= {eid for eid, s_, lab in wo.edges(sbb)}
                     if sbb == bb:
-                        oki = [i for i, st in enumerate(wo.blocks[bb]["stmts"]) if st["k"] == "assign" and st["lhs"]["l"] == 0]
-                        same_block = bool(oki) and si < oki[0]
+                        same_block = True       # a basic block runs as a whole: the decrement and the Ok value cannot be separated
                 if subs and (same_block or C.guarded(wo, bb, cut)):
                     ctx.ok("b|rem-=len", site=ctx.site(wo, bb))
                 else:
@@ -506,30 +505,50 @@ def r07_3(ctx):
 @rule("C07", "R07.4", floor=3)
 def r07_4(ctx):
     lib = ctx.lib
-    ig = body(ctx, "ignore_err_if_cleaning")
     ri = body(ctx, "pp_run_internal")
-    if ig:
-        clean_e = enum_edges(ig, lib, ADT["Mode"], lambda vs: vs == {"Clean"})
-        oks = ok_sites(ig)
-        if not oks:
-            ctx.anchor_missing("Ok construction in ignore_err_if_cleaning")
-        for bb in oks:
-            if clean_e and C.guarded(ig, bb, clean_e):
-                ctx.ok("errors are swallowed only on the Mode::Clean edge", site=ctx.site(ig, bb))
+    if ri:
+        # stated on the line processor in normal form (the `ignore_err_if_cleaning` helper is spliced in): on the failure edge of
+        # iterate_directive's result the error is (a) given up only where the mode is Clean, and (b) in Clean never returned
+        mo_ = modes(ctx)
+        it = ROLE["iterate_directive"]
+        E = enum_edges(ri, lib, "std::result::Result", lambda vs: vs == {"Err"}, src_pred=lambda c: has_call(c.src, it))
+        if not E:
+            ctx.anchor_missing("a test of iterate_directive's result for failure in the line processor")
+        me = mo_.mode_edges(ri)
+        clean_only = {eid for eid, vs in me.items() if vs == {"Clean"}}
+        non_clean = {eid for eid, vs in me.items() if "Clean" not in vs}
+        loopback = {bb for bb, t in ri.calls() if any(n in (ROLE["get_next_line"], it) for n in C.callee_names(t))}
+        out_of = lambda blocks: {eid for bb in blocks for eid, s_, lab in ri.edges(bb)}
+
+        def carries(bb):
+            t = ri.term(bb)
+            ops = []
+            if t["k"] == "call" and C.is_from_residual(t):
+                ops = [t["args"][0]]
+            for st in ri.blocks[bb]["stmts"]:
+                if st["k"] == "assign" and st["rv"]["k"] == "aggregate" and st["rv"]["agg"].get("adt") == "std::result::Result" \
+                        and st["rv"]["agg"].get("variant") == "Err":
+                    ops += st["rv"]["ops"]
+            return any(has_call(C.trace(ri, o, through_decorators=True), it) for o in ops)
+        errs = [bb for bb in err_sites(ri) if carries(bb)]
+        oks = set(ok_sites(ri))
+        if E:
+            Ea = {e for e in E if mo_.local_modes(ri, e[0]) - {"Clean"}}
+            Eb = {e for e in E if "Clean" in mo_.local_modes(ri, e[0])}
+            given_up = C.after_edges(ri, Ea, cut=clean_only | out_of(err_sites(ri))) if Ea else set()
+            bad = sorted(bb for bb in given_up if bb in loopback or bb in oks)
+            if bad:
+                ctx.violation(["swallow-any-mode"], "a directive error is given up (the line processor carries on) outside the Mode::Clean edge",
+                              site=ctx.site(ri, bad[0]))
             else:
-                ctx.violation(["swallow-any-mode"], "ignore_err_if_cleaning turns an error into Ok outside the Mode::Clean edge",
-                              site=ctx.site(ig, bb), witness=C.witness(ig, bb, clean_e))
-    if ri and ig:
-        # iterate_directive's result passes through ignore_err_if_cleaning before `?`
-        found = False
-        for bb, t in calls_to(ri, ROLE["ignore_err_if_cleaning"]):
-            lv = C.trace(ri, t["args"][0])
-            if has_call(lv, ROLE["iterate_directive"]):
-                found = True
-                ctx.ok("iterate_directive -> ignore_err_if_cleaning -> ?", site=ctx.site(ri, bb))
-        if not found:
-            ctx.violation(["iterate-not-tolerant"], "the result of iterate_directive no longer passes through ignore_err_if_cleaning "
-                          "(clean would fail on sources with directive errors)", site=ctx.site(ri, 0))
+                ctx.ok("errors are swallowed only on the Mode::Clean edge", site=ctx.site(ri, min(e[0] for e in E)))
+            in_clean = C.after_edges(ri, Eb, cut=non_clean | out_of(loopback)) if Eb else set()
+            bad = sorted(bb for bb in errs if bb in in_clean)
+            if bad or not Eb or not clean_only:
+                ctx.violation(["iterate-not-tolerant"], "an error of iterate_directive is returned in Clean mode "
+                              "(clean would fail on sources with directive errors)", site=ctx.site(ri, bad[0] if bad else 0))
+            else:
+                ctx.ok("iterate_directive errors are not returned in Clean mode", site=ctx.site(ri, min(e[0] for e in E)))
     # errors of clean-mode directive execution are tolerated, not propagated: the Result of the clean-mode executor
     # (execute_in_clean_mode / execute_directive_temp(_, true)) never reaches `?` or a return value of its caller
     from rules_err import forward_uses_ext, TRY
